@@ -85,7 +85,7 @@ def run(ctx, rep):
     from rules import typedid
     typedid.run(ctx, rep, "C07.a", owners=["index::indexer::Indexer.indexed"])
     adds = [(b, bb, t) for b in prog.by_crate["rustic_core"] for bb, t in b.calls() if "callee" in t and ADD.search(callee(t))]
-    rep.floor("C07.b", "Packer::add call sites", len(adds), 5)
+    rep.floor("C07.b", "Packer::add call sites", len(adds), 3)
     for (b, bb, t) in adds:
         k = fn_key(b)
         if k in EXC_ADD:
